@@ -149,6 +149,10 @@ func (s *AbsfsNFS) LookupWithContext(ctx context.Context, path string) (*NFSNode
 	default:
 	}
 
+	// Taken before the backend is consulted: a result read before a concurrent change
+	// (and its invalidation) must not be cached after it
+	cacheGen := s.attrCache.Generation()
+
 	// Check cache first (including negative cache)
 	if attrs, found := s.attrCache.Get(path, s); found {
 		if attrs == nil {
@@ -173,7 +177,7 @@ func (s *AbsfsNFS) LookupWithContext(ctx context.Context, path string) (*NFSNode
 	if err != nil {
 		// Store negative cache entry if enabled and error is "not found"
 		if os.IsNotExist(err) {
-			s.attrCache.PutNegative(path)
+			s.attrCache.PutNegativeIfCurrent(path, cacheGen)
 			s.RecordNegativeCacheMiss()
 		}
 		return nil, fmt.Errorf("lookup: failed to stat %s: %w", path, err)
@@ -204,7 +208,7 @@ func (s *AbsfsNFS) LookupWithContext(ctx context.Context, path string) (*NFSNode
 	}
 
 	// Cache the attributes
-	s.attrCache.Put(path, attrs)
+	s.attrCache.PutIfCurrent(path, attrs, cacheGen)
 	return node, nil
 }
 
@@ -213,6 +217,8 @@ func (s *AbsfsNFS) GetAttr(node *NFSNode) (*NFSAttrs, error) {
 	if node == nil {
 		return nil, fmt.Errorf("nil node")
 	}
+
+	cacheGen := s.attrCache.Generation()
 
 	// Check cache first
 	if attrs, found := s.attrCache.Get(node.path, s); found && attrs != nil && attrs.IsValid() {
@@ -251,7 +257,7 @@ func (s *AbsfsNFS) GetAttr(node *NFSNode) (*NFSAttrs, error) {
 	attrs.Refresh() // Initialize cache validity
 
 	// Cache the attributes
-	s.attrCache.Put(node.path, attrs)
+	s.attrCache.PutIfCurrent(node.path, attrs, cacheGen)
 	return attrs, nil
 }
 
@@ -492,6 +498,8 @@ func (s *AbsfsNFS) WriteWithContext(ctx context.Context, node *NFSNode, offset i
 					LogField{Key: "error", Value: chtimesErr})
 			}
 		}
+		// Chtimes changed the attributes again: whatever was cached in between is stale
+		s.attrCache.Invalidate(node.path)
 
 		// Update node attributes to reflect new size and time
 		info, statErr := s.fs.Stat(node.path)
@@ -829,6 +837,10 @@ func (s *AbsfsNFS) ReadDirWithContext(ctx context.Context, dir *NFSNode) ([]*NFS
 		}
 	}
 
+	var dirGen uint64
+	if s.dirCache != nil {
+		dirGen = s.dirCache.Generation()
+	}
 	f, err := s.fs.OpenFile(dir.path, os.O_RDONLY, 0)
 	if err != nil {
 		return nil, fmt.Errorf("readdir: failed to open directory %s: %w", dir.path, err)
@@ -849,7 +861,7 @@ func (s *AbsfsNFS) ReadDirWithContext(ctx context.Context, dir *NFSNode) ([]*NFS
 
 	// Store entries in cache if enabled
 	if s.dirCache != nil {
-		s.dirCache.Put(dir.path, entries)
+		s.dirCache.PutIfCurrent(dir.path, entries, dirGen)
 	}
 
 	var nodes []*NFSNode
@@ -888,6 +900,7 @@ func (s *AbsfsNFS) ReadDirPlus(dir *NFSNode) ([]*NFSNode, error) {
 
 	// Pre-cache attributes for all entries
 	for _, node := range nodes {
+		cacheGen := s.attrCache.Generation()
 		if attrs, found := s.attrCache.Get(node.path, s); !found || attrs == nil || !attrs.IsValid() {
 			info, err := s.fs.Lstat(node.path)
 			if err != nil {
@@ -911,7 +924,7 @@ func (s *AbsfsNFS) ReadDirPlus(dir *NFSNode) ([]*NFSNode, error) {
 			attrs.SetMtime(modTime)
 			attrs.SetAtime(modTime)
 			attrs.Refresh() // Initialize cache validity
-			s.attrCache.Put(node.path, attrs)
+			s.attrCache.PutIfCurrent(node.path, attrs, cacheGen)
 
 			// Assign attrs with write lock protection
 			node.mu.Lock()
